@@ -3,12 +3,13 @@
 # every token string up to the bound, real ParsePath against an independent recogniser of the documented grammar.
 cd "$(dirname "$0")/.."
 TIER=${1:-quick}
+OUT=/verif/out; [ -n "${GOVC_REPO:-}" ] && OUT="$GOVC_REPO.out"; mkdir -p "$OUT"; export OUT
 BOUND=5; [ "$TIER" = thorough ] && BOUND=6
 START=$(date +%s.%N)
-bin/govc check -prop C16 -tier "$TIER" > out/c16_govc.log 2>&1; RC=$?
-grep -E '^(VIOLATION|KNOWN-FINDING|ERROR|OBLIGATION|SUMMARY)' out/c16_govc.log
-mkdir -p out/replay/C16
-C16_BOUND=$BOUND C16_OUT=$PWD/out/c16_bounded.json replay/overlay_test.sh internal/parser/path bounded/c16_bounded_test.go TestBoundedC16 -v > out/c16_bounded.log 2>&1; TRC=$?
+bin/govc check -prop C16 -tier "$TIER" > $OUT/c16_govc.log 2>&1; RC=$?
+grep -E '^(VIOLATION|KNOWN-FINDING|ERROR|OBLIGATION|SUMMARY)' $OUT/c16_govc.log
+mkdir -p $OUT/replay/C16
+C16_BOUND=$BOUND C16_OUT=$OUT/c16_bounded.json replay/overlay_test.sh internal/parser/path bounded/c16_bounded_test.go TestBoundedC16 -v > $OUT/c16_bounded.log 2>&1; TRC=$?
 python3 - "$TIER" "$RC" "$TRC" "$START" <<'PY'
 import json, sys, time, os, re
 tier, rc, trc, start = sys.argv[1], int(sys.argv[2]), int(sys.argv[3]), float(sys.argv[4])
@@ -18,18 +19,18 @@ for l in open('known_findings.txt'):
     m = re.match(r'finding: property=C16 obligation=bounded:path.ParsePath#agrees-with-grammar/(\S+)', l)
     if m: known.add(m.group(1))
 viol = 0
-if trc != 0 or not os.path.exists('out/c16_bounded.json'):
+if trc != 0 or not os.path.exists(os.environ['OUT']+'/c16_bounded.json'):
     b = None
     print("ERROR bounded stand-in did not run (see out/c16_bounded.log)")
     rcx = 2
 else:
-    b = json.load(open('out/c16_bounded.json'))
+    b = json.load(open(os.environ['OUT']+'/c16_bounded.json'))
     bad = {c: n for c, n in b['differences_by_class'].items() if c not in known}
     for c, n in b['differences_by_class'].items():
         if c in known:
             print(f"KNOWN-FINDING: property=C16 bounded:path.ParsePath#agrees-with-grammar/{c} {n} of {b['strings']} strings up to {b['bound']} tokens, e.g. {b['examples'][c][0]}")
     if bad:
-        path = os.path.abspath('out/replay/C16/bounded_path.ParsePath_agrees-with-grammar.json')
+        path = os.path.abspath(os.environ['OUT']+'/replay/C16/bounded_path.ParsePath_agrees-with-grammar.json')
         fails = [d for d in b.get('all_differences', []) if d.split('\t')[0] in bad][:200]
         json.dump({"property":"C16","obligation":"bounded:path.ParsePath#agrees-with-grammar","kind":"bounded","bound_tokens":b['bound'],
                    "differences_by_class":bad,"failing_inputs":fails,"examples":{c:b['examples'][c] for c in bad},
@@ -48,6 +49,6 @@ ev['tier'] = tier
 ev['violations'] = int(ev.get('violations', 0)) + viol
 ev['wall_s'] = time.time() - start
 ev.setdefault('seed', 0); ev.setdefault('property_id', 'C16')
-json.dump(ev, open('evidence/C16.json','w'), indent=1)
+if not os.environ.get('GOVC_REPO'): json.dump(ev, open('evidence/C16.json','w'), indent=1)
 sys.exit(1 if (rc == 1 or viol) else (2 if (rc == 2 or rcx == 2) else 0))
 PY
